@@ -854,6 +854,9 @@ impl Allocator {
                     Ok(self.mk_node(ObjectType::SmallAtom, new_val as usize))
                 } else {
                     let start = self.u8_vec.len();
+                    if start + self.ghost_heap + substr.len() > self.heap_limit {
+                        return Err(EvalErr::OutOfMemory);
+                    }
                     let end = start + substr.len();
                     self.u8_vec.extend_from_slice(substr);
                     let idx = self.atom_vec.len();
